@@ -3,16 +3,22 @@ import EmbitModel.Proofs.HeapAlias
 /-
   C19, deepened — the exclusion behind `facts_safe_partial` made exact, and its witness.
 
-  `facts_safe_partial` says: every extracted site outside two name lists is safe. Here:
-  * the two lists are EXACTLY the unsafe sites (`unsafe_sites_exactly`): a site of the loaded embit modules is unsafe if
-    and only if its name is in `d31Sites` (the recorded defect D31, known_findings.json) or in `contractMutators`
-    (in-place by documented contract, outside the property) — so no name can be dropped from either list, and nothing
-    else hides behind them (each name denotes exactly one site: `excluded_names_denote_one_site_each`);
-  * the environment extracted with ONLY the contract mutators removed — i.e. with the D31 sites left in — is not safe
-    (`d31_sites_make_the_environment_unsafe`), and the D31 history `k = Key(pub); Descriptor(key=k, taproot=True)`
-    changes the caller's key object in the heap model, which changes what a later call on `k` answers;
-  * with exactly the D31 sites removed by name on top, the environment is safe and no history changes an argument
-    (`embit_safe_without_d31`: Part 1 of Props/C19.lean instantiated).
+  `facts_safe_partial` says: every extracted site outside the excluded names is safe. Here:
+  * the exclusion is EXACTLY the unsafe sites (`unsafe_sites_exactly`): a site of the loaded embit modules is unsafe if
+    and only if its name is in `contractMutators` (in-place by documented contract, outside the property) — so no name
+    can be dropped from the list, nothing else hides behind it (each name denotes exactly one site:
+    `excluded_names_denote_one_site_each`), and NO site is excused as a recorded defect (`knownUnsafe = []`);
+  * with the contract mutators removed by name the environment is safe and no history changes an argument
+    (`embit_safe`: Part 1 of Props/C19.lean instantiated).
+
+  ROUND 6: until then the exclusion had a second list, `d31Sites` (= `knownUnsafe`: finding D31, `Descriptor(...)` and
+  `TapTree(...)` assigned `k.taproot` on the caller's key objects), and `d31_sites_make_the_environment_unsafe` proved that
+  the extracted environment with those sites left in was NOT safe. The library is repaired (fixes/d31.diff), the regenerated
+  table has no such site, and the statements that asserted the defect were replaced by the stronger ones above
+  (`unsafe_sites_exactly` without `d31Sites`, `embit_safe` instead of `embit_safe_without_d31`). What the old witness showed
+  is kept as a REGRESSION statement: `d31Regression` are the two records the translator emitted for the defective
+  constructors; put back into the table they break `unsafe_sites_exactly` and make the environment unsafe, with the history
+  that changes the caller's key (`returning_d31_sites_would_be_caught`).
 
   Second part — a pattern `Model/Heap.lean` does not cover: THE CALLER EDITS ITS OWN ARGUMENT OBJECT IN PLACE between two
   calls (`Model/HeapAlias.lean`). A keyed memo whose key COPIES the argument's contents answers `f(receiver, argument)`
@@ -25,95 +31,98 @@ import EmbitModel.Proofs.HeapAlias
 namespace Embit.Props.C19
 open Embit Embit.Heap
 
-/-- the sites of the recorded, unrepaired defect D31, by name: the two constructors that assign `k.taproot` on the
-    caller's key objects, and the three always-on probes that reproduce it -/
-def d31Sites : List String := [
-  "descriptor.descriptor.Descriptor.__init__[k]",
-  "descriptor.taptree.TapTree.__init__[k]",
-  "probe:Descriptor(key=k) twice with different taproot flags",
-  "probe:Descriptor(key=k, taproot=True) leaves k unchanged",
-  "probe:TapTree(leaf) leaves the keys of the leaf unchanged"]
-
-/-- the list literal above is the list `facts_safe_partial` excludes -/
-theorem d31Sites_eq_knownUnsafe : d31Sites = knownUnsafe := rfl
-
 set_option maxRecDepth 100000
 
-/-- EXACT: a site is unsafe iff it is a D31 site or a contract mutator (stronger than `facts_safe_partial`, which is
-    the direction "outside the lists ⇒ safe") -/
+/-- EXACT: a site is unsafe iff it is a contract mutator (stronger than `facts_safe_partial`, which is the direction
+    "outside the list ⇒ safe"; stronger than the statement of this name before the repair of D31, which had
+    `d31Sites.contains s.name ||` on the right-hand side) -/
 theorem unsafe_sites_exactly :
-    (Gen.Alias.sites.all fun s => (!s.safe) == (d31Sites.contains s.name || contractMutators.contains s.name)) = true := by
+    (Gen.Alias.sites.all fun s => (!s.safe) == contractMutators.contains s.name) = true := by
   decide +kernel
 
-/-- every excluded name denotes exactly one extracted site (no name is stale, none matches several sites), and the
-    two lists do not overlap -/
+/-- every excluded name denotes exactly one extracted site (no name is stale, none matches several sites), and no name
+    is excluded as a recorded defect -/
 theorem excluded_names_denote_one_site_each :
-    ((d31Sites ++ contractMutators).all fun n => (Gen.Alias.sites.filter (·.name == n)).length == 1) = true
-    ∧ (d31Sites.all fun n => !contractMutators.contains n) = true := by
-  constructor <;> decide +kernel
+    (contractMutators.all fun n => (Gen.Alias.sites.filter (·.name == n)).length == 1) = true
+    ∧ knownUnsafe = [] := by
+  constructor
+  · decide +kernel
+  · rfl
 
-/-- the library as extracted with ONLY the contract mutators left out: the D31 sites are in -/
-def embitEnvWithD31 (f : Nat → List (List Val) → List Val → Val) : Env :=
-  { classes := (Gen.Alias.sites.filter inScope).filterMap classOfSite,
-    methods := (Gen.Alias.sites.filter fun s => !contractMutators.contains s.name).filterMap methodOfSite,
+/-- the records `harness/aliasfacts.py` emitted for the two constructors before the repair of D31 (AST rule: a constructor
+    assigning an attribute of objects reached from its arguments; a site of this kind is unsafe whatever the probe says) -/
+def d31Regression : List Site := [
+  { name := "descriptor.descriptor.Descriptor.__init__[k]", kind := .ctorWritesArgObjects, probe := .notProbed,
+    evidence := "k.taproot = ... where k ranges over objects reached from the constructor's arguments" },
+  { name := "descriptor.taptree.TapTree.__init__[k]", kind := .ctorWritesArgObjects, probe := .notProbed,
+    evidence := "k.taproot = ... where k ranges over objects reached from the constructor's arguments" }]
+
+/-- the library as it would be extracted if the records `extra` came back (contract mutators left out by name) -/
+def embitEnvWith (extra : List Site) (f : Nat → List (List Val) → List Val → Val) : Env :=
+  { classes := ((Gen.Alias.sites ++ extra).filter inScope).filterMap classOfSite,
+    methods := ((Gen.Alias.sites ++ extra).filter inScope).filterMap methodOfSite,
     defaultRef := fun c p => c + p, f := f }
 
 /-- position of a site's method in that environment -/
-def methodIndexWithD31 (name : String) : Nat :=
-  (((Gen.Alias.sites.filter fun s => !contractMutators.contains s.name).filter
-      fun s => (methodOfSite s).isSome).map (·.name)).idxOf name
+def methodIndexWith (extra : List Site) (name : String) : Nat :=
+  ((((Gen.Alias.sites ++ extra).filter inScope).filter fun s => (methodOfSite s).isSome).map (·.name)).idxOf name
 
 /-- a digest that sees every cell of the argument (`fHash` sums, and the model's in-place write appends a 0) -/
 def fSees : Nat → List (List Val) → List Val → Val := fun _ recv a => recv.flatten.sum + 100 * a.length
 
-/-- WITNESS (D31 in the heap model): with the D31 sites the environment is not safe, and the history
-    `k = Key(pub)  [newArg]; Descriptor(key=k, taproot=True)  [the constructor as a call on k]` changes the caller's
-    object `k`; a call that answered `f … [0]` on `k` before answers `f … [0, 0]` afterwards (different for a digest that reads all of `k`) — for both D31
-    constructors -/
-theorem d31_sites_make_the_environment_unsafe :
-    (embitEnvWithD31 fSees).noArgMutation = false
-    ∧ (["descriptor.descriptor.Descriptor.__init__[k]", "descriptor.taptree.TapTree.__init__[k]"].all fun site =>
-        let env := embitEnvWithD31 fSees
-        let m := methodIndexWithD31 site
+/-- nothing extra = the extracted environment -/
+theorem embitEnvWith_nil (f : Nat → List (List Val) → List Val → Val) : embitEnvWith [] f = embitEnv f := by
+  simp [embitEnvWith, embitEnv]
+
+/-- REGRESSION WITNESS (D31 in the heap model; before the repair this was `d31_sites_make_the_environment_unsafe`, a
+    statement about the extracted table itself): the repaired table has no constructor writing into argument objects;
+    if the two D31 records came back, (1) `unsafe_sites_exactly` would be false of the table — the build of the check
+    stops —, (2) the environment would not be safe, and (3) the history
+    `k = Key(pub)  [newArg]; Descriptor(key=k, taproot=True)  [the constructor as a call on k]` changes the caller's object
+    `k`: a call that answered `f … [0]` on `k` before answers `f … [0, 0]` afterwards (different for a digest that reads all
+    of `k`) — for both constructors -/
+theorem returning_d31_sites_would_be_caught :
+    (Gen.Alias.sites.all fun s => match s.kind with | .ctorWritesArgObjects => false | _ => true) = true
+    ∧ ((Gen.Alias.sites ++ d31Regression).all fun s => (!s.safe) == contractMutators.contains s.name) = false
+    ∧ (embitEnvWith d31Regression fSees).noArgMutation = false
+    ∧ (d31Regression.all fun site =>
+        let env := embitEnvWith d31Regression fSees
+        let m := methodIndexWith d31Regression site.name
         let st := run env (init 64 fun _ => []) [.construct 0 [], .newArg [0]]
         let st' := step env st (.query 0 m 0)
         m < env.methods.length && argObs st 0 == [0] && argObs st' 0 == [0, 0]
           && answer env st 0 0 0 != answer env st' 0 0 0) = true := by
-  constructor <;> decide +kernel
+  refine ⟨?_, ?_, ?_, ?_⟩ <;> decide +kernel
 
-/-- with exactly the D31 sites (and the contract mutators) removed by name, the extracted environment is the safe
-    `embitEnv`: removing `d31Sites` from `embitEnvWithD31` gives it back -/
-theorem embitEnv_is_embitEnvWithD31_minus_d31 (f : Nat → List (List Val) → List Val → Val) :
-    (embitEnv f).methods
-      = ((Gen.Alias.sites.filter fun s => !contractMutators.contains s.name).filter
-          fun s => !d31Sites.contains s.name).filterMap methodOfSite
-    ∧ (embitEnv f).classes = (embitEnvWithD31 f).classes := by
-  refine ⟨?_, rfl⟩
-  show (Gen.Alias.sites.filter inScope).filterMap methodOfSite = _
-  rw [List.filter_filter]
-  rfl
-
-/-- SAFE WITHOUT D31: in every history over the extracted constructors and methods other than the D31 sites (and the
-    contract mutators) no argument object the caller holds is ever changed, objects are independent, and answers are
-    functions of receiver and arguments -/
-theorem embit_safe_without_d31 (f : Nat → List (List Val) → List Val → Val) (d : Nat) (dflt : Nat → List Val)
+/-- SAFE (no exemption for a recorded defect; before the repair of D31: `embit_safe_without_d31`, over an environment
+    that left the D31 sites out by name): in every history over the extracted constructors and methods other than the
+    contract mutators no argument object the caller holds is ever changed, objects are independent, and — `embitEnv`
+    excludes nothing else — the methods are those of every site that is not a contract mutator -/
+theorem embit_safe (f : Nat → List (List Val) → List Val → Val) (d : Nat) (dflt : Nat → List Val)
     (h : List Op) :
     (∀ k, k < (run (embitEnv f) (init d dflt) h).pool.length → ∀ ops,
         argObs (run (embitEnv f) (run (embitEnv f) (init d dflt) h) ops) k = argObs (run (embitEnv f) (init d dflt) h) k)
     ∧ (∀ i j fld v, i ≠ j → j < (run (embitEnv f) (init d dflt) h).objs.length →
         obs (step (embitEnv f) (run (embitEnv f) (init d dflt) h) (.mutate i fld v)) j
-          = obs (run (embitEnv f) (init d dflt) h) j) := by
+          = obs (run (embitEnv f) (init d dflt) h) j)
+    ∧ (embitEnv f).methods
+        = (Gen.Alias.sites.filter fun s => !contractMutators.contains s.name).filterMap methodOfSite := by
   have hsafe := embit_descriptors_safe f
   have hr : Reachable (embitEnv f) (run (embitEnv f) (init d dflt) h) := ⟨d, dflt, h, rfl⟩
-  exact ⟨fun k hk ops => no_arg_mutation (embitEnv f) hsafe.1 hsafe.2.2 _ hr k hk ops,
-    fun i j fld v hij hj => (independence (embitEnv f) hsafe.1 _ hr i j fld v hij hj).1⟩
+  refine ⟨fun k hk ops => no_arg_mutation (embitEnv f) hsafe.1 hsafe.2.2 _ hr k hk ops,
+    fun i j fld v hij hj => (independence (embitEnv f) hsafe.1 _ hr i j fld v hij hj).1, ?_⟩
+  show (Gen.Alias.sites.filter inScope).filterMap methodOfSite = _
+  have hf : Gen.Alias.sites.filter inScope = Gen.Alias.sites.filter fun s => !contractMutators.contains s.name :=
+    List.filter_congr fun s _ => knownUnsafe_is_empty.2 s
+  rw [hf]
 
-/-- non-vacuity: the safe environment has classes and methods, and the D31 methods are the only mutating ones of
-    `embitEnvWithD31` -/
+/-- non-vacuity: the safe environment has classes and methods, none of them mutating; with the D31 records back there
+    would be two more methods, the only mutating ones -/
 example : 0 < (embitEnv fHash).classes.length ∧ 0 < (embitEnv fHash).methods.length
-    ∧ (embitEnvWithD31 fHash).methods.length = (embitEnv fHash).methods.length + 2
-    ∧ ((embitEnvWithD31 fHash).methods.filter (·.mutatesArg)).length = 2 := by
-  refine ⟨?_, ?_, ?_, ?_⟩ <;> decide +kernel
+    ∧ ((embitEnv fHash).methods.filter (·.mutatesArg)).length = 0
+    ∧ (embitEnvWith d31Regression fHash).methods.length = (embitEnv fHash).methods.length + 2
+    ∧ ((embitEnvWith d31Regression fHash).methods.filter (·.mutatesArg)).length = 2 := by
+  refine ⟨?_, ?_, ?_, ?_, ?_⟩ <;> decide +kernel
 
 /-! ### keyed memos and in-place edits of the caller's argument objects -/
 
